@@ -10,11 +10,18 @@ paths enumerated):
     `Error::Other as u8` (= 0x7F from the ADT table) exactly on the Err path;
   * the *last* buffer operation of every path is resize_default(n) with n = 1 on the Err path and
     on the [0xA0] path, n = slice.len() + 1 otherwise (slice = the encoder's returned prefix);
-  * no resize result is unwrapped; `l + 1` cannot overflow (l <= N - 1).
+  * no resize result is unwrapped; `l + 1` cannot overflow (l <= N - 1);
+  * per response variant (clause shared with C02): a data-bearing variant's arm is
+    cbor_serialize(<its own payload>, <tail>), a parameter-less one yields the empty body -- a
+    "complete message" is the variant's whole body, in every configuration.
 Independence from prior contents follows: every byte of the final [0, n) range is written on the
 path that selects n.  Not decided: that cbor_serialize fails rather than truncates (cbor-smol).
 """
+import json
+import os
+
 from . import hirq as H
+from .engine import VERIF
 from . import respser as R
 from . import oblig_rules as OR
 from .oblig_mono import node_at
@@ -107,6 +114,42 @@ def check(ctx, F, cfg, P="C17", clauses="all"):
     return len(m.paths)
 
 
+def payload(ctx, F, cfg, spec, P="C17"):
+    """body wiring per response variant: a data-bearing variant's arm is cbor_serialize(<its own bound payload>, <tail>),
+    a parameter-less one is Ok(<empty slice>) -- in every configuration in which the variant exists"""
+    from .wire import erase_lt
+    m, problems = R.build(F)
+    if m is not None and m.self_match is not None:
+        seen = set()
+        for a in m.self_match["arms"]:
+            pats = a["pat"]["pats"] if a["pat"].get("k") == "or" else [a["pat"]]
+            body = H.strip_block(a["body"])
+            for p in pats:
+                v = (H.pat_ctor(p) or "?").split("::")[-1]
+                seen.add(v)
+                want = spec["response_variants"].get(v, "?")
+                key = "%s|frame|payload|%s" % (P, v)
+                if want == "?":
+                    ctx.note("Response::%s is not in the specification table: not judged" % v)
+                    continue
+                if want is None:
+                    # Ok(<empty slice>)
+                    good = body.get("k") == "call" and body.get("ctor") == R.OK
+                    if good:
+                        x = H.strip(body["args"][0])
+                        if x.get("k") == "mcall" and x.get("callee") in ("core::array::<impl [T; N]>::as_slice", "core::slice::<impl [T]>::as_ref"):
+                            x = H.strip(x["recv"])
+                        good = x.get("k") == "array" and len(x["elems"]) == 0
+                    ctx.oblige(key, good, "parameter-less response %s no longer has an empty body" % v, cfg=cfg, where=a["sp"])
+                else:
+                    binds = H.pat_bindings(p)
+                    good = body.get("callee") in R.CBOR_SER and len(binds) == 1 and H.local_id(H.call_args(body)[0]) == binds[0][1] and H.local_id(H.call_args(body)[1]) == m.data_id
+                    ty = (body.get("targs") or [""])[0]
+                    ctx.oblige(key, good and erase_lt(ty) == want, "response %s is encoded from %s, expected its own payload of type %s" % (v, ty, want), cfg=cfg, where=a["sp"])
+        for v in spec["response_variants"]:
+            ctx.oblige("%s|frame|variant|%s" % (P, v), v in seen, "Response::%s has no arm in Response::serialize" % v, cfg=cfg, nontrivial=False)
+
+
 def run(ctx):
     ctx.explanation = ("All control-flow paths of the loop-free ctap2::Response::serialize are enumerated from typed HIR; on each the ordered operations on the buffer, "
                        "the status byte and the body tail are extracted and decided clause by clause (grow first, split, only the encoder writes the tail, status assigned "
@@ -114,8 +157,10 @@ def run(ctx):
     ctx.rule = "obligation = (path, clause) per configuration; paths = response-variant arm x {Ok&[0xA0], Ok, Err}"
     ctx.trusted = ["cbor-smol 0.5.1: cbor_serialize returns Err (not a truncated prefix) when the body does not fit, and Ok(prefix written)", "heapless 0.7.17 Vec::resize_default"]
     ctx.assumptions = ["buffer capacity N >= 1 (the property's precondition)", "slice.len() <= N - 1 so slice.len() + 1 cannot overflow"]
+    spec = json.load(open(os.path.join(VERIF, "spec", "ctap2_messages.json")))
     for cfg, F in ctx.facts.items():
         n = check(ctx, F, cfg)
+        payload(ctx, F, cfg, spec)
         ctx.floor("enumerated paths", n, 3, cfg=cfg)
         # "never panics": obligations in every /repo instance reachable from Response::serialize (monomorphic call graph,
         # instantiated at N = 1024 only to resolve callees; the MIR of serialize::<N> is the same for every N)
